@@ -1,57 +1,57 @@
 (* Proofs/WmdSort.v — the insertion sort of Model/WmdIO.v sorts (Sorted + Permutation); strictly sorted
    lists are determined by their elements; the order in which MatchingInstance.write visits the edges
    (edge_keys) is strictly increasing for the lexicographic order on (source, target). *)
-From Coq Require Import List NArith Bool Lia Permutation Sorted.
+From Coq Require Import List NArith ZArith Bool Lia Permutation Sorted.
 From PrefVerif Require Import Lib.Val Lib.Dec Lib.PyStr Model.Meta Model.WmdIO.
 Import ListNotations.
 
 (* ---- insertion sort ---- *)
-Lemma insert_N_perm x l : Permutation (x :: l) (insert_N x l).
+Lemma insert_Z_perm x l : Permutation (x :: l) (insert_Z x l).
 Proof.
   induction l as [|y r IH]; simpl; [apply Permutation_refl|].
-  destruct (N.leb x y); [apply Permutation_refl|].
+  destruct (Z.leb x y); [apply Permutation_refl|].
   eapply Permutation_trans; [apply perm_swap|]. now apply perm_skip.
 Qed.
 
-Theorem isort_N_perm l : Permutation l (isort_N l).
+Theorem isort_Z_perm l : Permutation l (isort_Z l).
 Proof.
   induction l as [|x r IH]; simpl; [constructor|].
-  eapply Permutation_trans; [|apply insert_N_perm]. now apply perm_skip.
+  eapply Permutation_trans; [|apply insert_Z_perm]. now apply perm_skip.
 Qed.
 
-Lemma insert_N_In x y l : In y (insert_N x l) <-> y = x \/ In y l.
+Lemma insert_Z_In x y l : In y (insert_Z x l) <-> y = x \/ In y l.
 Proof.
   split; intros H.
-  - apply (Permutation_in y (Permutation_sym (insert_N_perm x l))) in H. simpl in H. intuition.
-  - apply (Permutation_in y (insert_N_perm x l)). simpl. intuition.
+  - apply (Permutation_in y (Permutation_sym (insert_Z_perm x l))) in H. simpl in H. intuition.
+  - apply (Permutation_in y (insert_Z_perm x l)). simpl. intuition.
 Qed.
 
-Lemma insert_N_sorted x l : StronglySorted N.le l -> StronglySorted N.le (insert_N x l).
+Lemma insert_Z_sorted x l : StronglySorted Z.le l -> StronglySorted Z.le (insert_Z x l).
 Proof.
   induction l as [|y r IH]; intros H; simpl.
   - constructor; constructor.
-  - destruct (N.leb_spec x y) as [L|L].
+  - destruct (Z.leb_spec x y) as [L|L].
     + constructor; [exact H|]. constructor; [exact L|].
       apply StronglySorted_inv in H as [_ H]. rewrite Forall_forall in *. intros z Hz.
       specialize (H z Hz). lia.
     + apply StronglySorted_inv in H as [H1 H2]. constructor; [now apply IH|].
-      rewrite Forall_forall in *. intros z Hz. apply insert_N_In in Hz as [->|Hz]; [lia|now apply H2].
+      rewrite Forall_forall in *. intros z Hz. apply insert_Z_In in Hz as [->|Hz]; [lia|now apply H2].
 Qed.
 
-Theorem isort_N_sorted l : StronglySorted N.le (isort_N l).
-Proof. induction l as [|x r IH]; simpl; [constructor|now apply insert_N_sorted]. Qed.
+Theorem isort_Z_sorted l : StronglySorted Z.le (isort_Z l).
+Proof. induction l as [|x r IH]; simpl; [constructor|now apply insert_Z_sorted]. Qed.
 
-Lemma isort_N_In x l : In x (isort_N l) <-> In x l.
+Lemma isort_Z_In x l : In x (isort_Z l) <-> In x l.
 Proof.
   split; intros H.
-  - now apply (Permutation_in x (Permutation_sym (isort_N_perm l))).
-  - now apply (Permutation_in x (isort_N_perm l)).
+  - now apply (Permutation_in x (Permutation_sym (isort_Z_perm l))).
+  - now apply (Permutation_in x (isort_Z_perm l)).
 Qed.
 
-Lemma isort_N_NoDup l : NoDup l -> NoDup (isort_N l).
-Proof. intros H. eapply Permutation_NoDup; [apply isort_N_perm|exact H]. Qed.
+Lemma isort_Z_NoDup l : NoDup l -> NoDup (isort_Z l).
+Proof. intros H. eapply Permutation_NoDup; [apply isort_Z_perm|exact H]. Qed.
 
-Lemma sorted_le_nodup_lt l : StronglySorted N.le l -> NoDup l -> StronglySorted N.lt l.
+Lemma sorted_le_nodup_lt l : StronglySorted Z.le l -> NoDup l -> StronglySorted Z.lt l.
 Proof.
   induction l as [|x r IH]; intros S D; [constructor|].
   apply StronglySorted_inv in S as [S1 S2]. inversion D as [|? ? D1 D2]; subst.
@@ -59,8 +59,8 @@ Proof.
   specialize (S2 y Hy). assert (x <> y) by (intros ->; contradiction). lia.
 Qed.
 
-Lemma isort_N_strict l : NoDup l -> StronglySorted N.lt (isort_N l).
-Proof. intros H. apply sorted_le_nodup_lt; [apply isort_N_sorted|now apply isort_N_NoDup]. Qed.
+Lemma isort_Z_strict l : NoDup l -> StronglySorted Z.lt (isort_Z l).
+Proof. intros H. apply sorted_le_nodup_lt; [apply isort_Z_sorted|now apply isort_Z_NoDup]. Qed.
 
 (* ---- strictly sorted lists with the same elements are equal ---- *)
 Section Unique.
@@ -108,14 +108,14 @@ Section Unique.
 End Unique.
 
 (* ---- lexicographic order on (source, target) ---- *)
-Definition plt (a b : N * N) : Prop := (fst a < fst b)%N \/ (fst a = fst b /\ (snd a < snd b)%N).
+Definition plt (a b : Z * Z) : Prop := (fst a < fst b)%Z \/ (fst a = fst b /\ (snd a < snd b)%Z).
 
 Lemma plt_irrefl x : ~ plt x x.
 Proof. unfold plt. lia. Qed.
 Lemma plt_trans x y z : plt x y -> plt y z -> plt x z.
 Proof. unfold plt. lia. Qed.
 
-Lemma ssorted_map_pair n l : StronglySorted N.lt l -> StronglySorted plt (map (pair n) l).
+Lemma ssorted_map_pair n l : StronglySorted Z.lt l -> StronglySorted plt (map (pair n) l).
 Proof.
   induction l as [|x r IH]; intros S; simpl; [constructor|].
   apply StronglySorted_inv in S as [S F]. constructor; [now apply IH|].
@@ -123,8 +123,8 @@ Proof.
   right. simpl. split; [reflexivity|now apply F].
 Qed.
 
-Lemma ssorted_flat_pairs (f : N -> list N) ns :
-  StronglySorted N.lt ns -> (forall n, StronglySorted N.lt (f n)) ->
+Lemma ssorted_flat_pairs (f : Z -> list Z) ns :
+  StronglySorted Z.lt ns -> (forall n, StronglySorted Z.lt (f n)) ->
   StronglySorted plt (flat_map (fun n => map (pair n) (f n)) ns).
 Proof.
   intros S Hf. induction ns as [|n r IH]; simpl; [constructor|].
@@ -139,18 +139,18 @@ Qed.
 Theorem edge_keys_sorted g : NoDup (keys g) -> (forall n, NoDup (nbrs g n)) ->
   StronglySorted plt (edge_keys g).
 Proof.
-  intros D Dn. unfold edge_keys. apply (ssorted_flat_pairs (fun n => isort_N (nbrs g n))).
-  - now apply isort_N_strict.
-  - intros n. now apply isort_N_strict.
+  intros D Dn. unfold edge_keys. apply (ssorted_flat_pairs (fun n => isort_Z (nbrs g n))).
+  - now apply isort_Z_strict.
+  - intros n. now apply isort_Z_strict.
 Qed.
 
 Lemma edge_keys_In g n m : In (n, m) (edge_keys g) <-> In n (keys g) /\ In m (nbrs g n).
 Proof.
   unfold edge_keys. rewrite in_flat_map. split.
   - intros [x [Hx H]]. apply in_map_iff in H as [y [E Hy]]. injection E as -> ->.
-    split; [exact (proj1 (isort_N_In _ _) Hx)|exact (proj1 (isort_N_In _ _) Hy)].
-  - intros [Hn Hm]. exists n. split; [exact (proj2 (isort_N_In _ _) Hn)|].
-    apply in_map_iff. exists m. split; [reflexivity|exact (proj2 (isort_N_In _ _) Hm)].
+    split; [exact (proj1 (isort_Z_In _ _) Hx)|exact (proj1 (isort_Z_In _ _) Hy)].
+  - intros [Hn Hm]. exists n. split; [exact (proj2 (isort_Z_In _ _) Hn)|].
+    apply in_map_iff. exists m. split; [reflexivity|exact (proj2 (isort_Z_In _ _) Hm)].
 Qed.
 
 Lemma edge_keys_NoDup g : NoDup (keys g) -> (forall n, NoDup (nbrs g n)) -> NoDup (edge_keys g).
